@@ -71,9 +71,9 @@ SPEC_TIMEOUT = 900
 # wall-clock upper bounds: re-run alone before believing them
 CONFIRM_ALONE = ('join_overran_timeout',)
 
-SLACK = 20.0         # join(t) returning later than t + SLACK is an overrun
-HOLD_GUARD = 45.0   # a call on a held child not back after t + this: child is killed
-EXIT_GUARD = 240.0   # a released child must have ended / a join must be back by then
+SLACK = 10.0         # join(t) returning later than t + SLACK is an overrun
+HOLD_GUARD = 30.0   # a call on a held child not back after t + this: child is killed
+EXIT_GUARD = 180.0   # a released child must have ended / a join must be back by then
 
 METHODS = ['fork', 'spawn', 'forkserver']
 SIGS_DESIGN = ['SIGHUP', 'SIGINT', 'SIGQUIT', 'SIGILL', 'SIGABRT', 'SIGBUS',
